@@ -113,7 +113,8 @@ def red_noise(rep, a):
         X = Zs @ _orth(rng, p, p).T * np.linspace(1, 2, p) * scale
         Xa = xr.DataArray(X, dims=("time", "x"), coords=dict(time=np.arange(n), x=np.arange(p) * 1.0))
         Xother = xr.DataArray(rng.normal(size=(n, p)).cumsum(axis=0), dims=("time", "x"), coords=Xa.coords)
-        for tm in (1, 2, 4):
+        # the statement quantifies tau_max over 1..n/3: long lag windows as well (a lag sum accumulated in blocks, seed C19e)
+        for tm in (1, 2, 4, 16, 17, n // 3):
             for kpc in (3, 5):
                 nm = [1, 2, kpc][r % 3]
                 std = (r % 2 == 1)
@@ -169,7 +170,7 @@ def red_noise(rep, a):
 
 
 def main():
-    a, rep, replay = parse(PROP)
+    a, rep, replay = parse(PROP, aged=True)
     rep.assumptions = ["the lag estimator's denominator convention is not part of the property: hull over n-tau-1, n-tau, n-1, n (one convention per fit)",
                        "optimality is tested against the independently computed top generalised eigenvector and 200 random combinations"]
     if replay is not None and replay["scenario"].get("kind") == "scenario":
